@@ -660,7 +660,9 @@ def frames_check(ctx, relevant_kinds, monitor, n_quick, n_thorough, deps, nontri
                 ctx.distinct((tuple(c["cfg"][2:]), tuple(script_of(c))))
             if c["k"] < 1 and run["n"] > 0:
                 ctx.sample({"scenario": c["hdr"] + script_of(c), "frames": [" ".join(":".join(i) for i in f[2]) for f in fr][:6]})
-            mon = monitor(c, fr) if monitor else None
+            # a livelocked run logs hundreds of thousands of events: it is reported as such (run failed); the monitors,
+            # written for scenario-sized traces, are not run on it
+            mon = monitor(c, fr) if monitor and len(c["trace"]) <= 30000 else None
             if mon and mon[1] not in sigs:
                 sigs.add(mon[1])
                 ctx.add_violation(mon[0], mon[1], {"family": "frames", "run_seed": run["seed"], "n": run["n"], "k": c["k"],
